@@ -394,8 +394,9 @@ func (interp *Interpreter) parse(src, name string, inc bool) (node ast.Node, err
 
 	f, err := parser.ParseFile(interp.fset, name, src, mode)
 	if err != nil {
-		// only retry if we're on an expression/statement about a func
-		if !inc || tok != token.FUNC {
+		// only retry if we're on an expression/statement about a func, or on
+		// a declaration followed by statements (i.e. "var a int; a = 2")
+		if !inc || tok != token.FUNC && tok != token.CONST && tok != token.TYPE && tok != token.VAR {
 			return nil, err
 		}
 		// do not bother retrying if we know it's an error we're going to ignore later on.
@@ -410,6 +411,8 @@ func (interp *Interpreter) parse(src, name string, inc bool) (node ast.Node, err
 		if err != nil {
 			return nil, initialError
 		}
+		// statements led by a declaration are evaluated as any other statements
+		inFunc = tok != token.FUNC
 	}
 
 	if inFunc {
